@@ -75,6 +75,15 @@ class Result(object):
         instances, else the analysis (not the property) is broken."""
         n = sum(1 for o in self.obs if o.rule == rule)
         if n < minimum:
+            # a rule that has already reported a violation which is not a listed known finding is not vacuous: its
+            # later obligations usually could not be formed *because* the first one failed (the construct they would
+            # examine has lost its shape).  The run then ends as a violation, not as a broken analysis.
+            try:
+                known = set(k["id"] for k in load_known().get("known", []))
+            except Exception:
+                known = set()
+            if any(o.rule == rule and o.status == "violation" and ("%s/%s/%s" % (self.pid, o.rule, o.key)) not in known for o in self.obs):
+                return n
             raise AnalysisError(
                 "rule %s examined %d instance(s), below its vacuity floor %d "
                 "(an anchor moved or an idiom is no longer recognised)" % (rule, n, minimum)
